@@ -1,9 +1,12 @@
 CHECK = {
-    "mode": "inpkg", "pkg": "sample", "files": ["c18_sampler_test.go"],
+    "builds": [
+        {"mode": "inpkg", "pkg": "sample", "files": ["c18_sampler_test.go", "c18_fuzz_test.go"]},
+        {"mode": "inpkg", "pkg": "sample", "files": ["c18_sampler_test.go", "c18_fuzz_test.go"], "fuzz": "FuzzC18Sampler"},
+    ],
     "level": "exploration",
     "engine": "sampler",
     "technique": "property-based testing (rapid, shrinking) of sample.NewSampler(...).Sample against a float64 interval "
-                 "reference of the filter chain, plus a twin-sampler determinism oracle",
+                 "reference of the filter chain, plus a twin-sampler determinism oracle; thorough tier additionally runs Go's native coverage-guided fuzzer (go test -fuzz) against the same oracle (rapid.MakeFuzz over the same generator)",
     "level_text": "Randomised exploration of (temperature, top-k, top-p, min-p, seed) x logit vectors of length 1-300 "
                   "(ties, runs of -Inf, single finite value, huge/tiny magnitudes, near-equal floats, NaN/+Inf as a "
                   "separate class), 1-64 draws per vector. Every returned id is checked against an over-approximation of "
@@ -17,7 +20,9 @@ CHECK = {
     "design_ref": "DESIGN.md section 3 C18",
     "targets": [{"name": "TestC18Sampler",
                  "quick": {"cases": 40000, "shards": 4, "soft_s": 40},
-                 "thorough": {"cases": 2000000, "shards": 16, "soft_s": 400}}],
+                 "thorough": {"cases": 2000000, "shards": 12, "soft_s": 400}},
+                # native coverage-guided fuzzing, thorough tier only (cannot be pinned to VERIF_SEED; the saved input is the reproducible unit)
+                {"name": "FuzzC18Sampler", "build": 1, "kind": "fuzz", "thorough": {"fuzztime": "120s", "workers": 4, "hard_s": 600}}],
     "floors": {"top_k_removes": 0.10, "top_p_removes": 0.10, "min_p_removes": 0.10, "temp_zero": 0.05,
                "greedy_distinct": 0.03, "tie_at_max": 0.05, "neginf_present": 0.08, "single_finite": 0.03,
                "hazard_nan_posinf": 0.02, "determinism_nontrivial": 0.15, "len_1": 0.05, "len_gt_40": 0.10,
